@@ -147,7 +147,8 @@ class C20(core.Check):
             lang = rnd.choice(['en', 'de', 'ru'])
             yield dict(fam='shell', text=gen_text(rnd, 25) + ' ' + gen_eq_text(rnd, self.ph_of(lang)) + '\n',
                        accept=rnd.choice(ACC) + rnd.choice(['', '||']), lang=lang, mode=rnd.choice(['displayed', 'inline', 'all']),
-                       ml=rnd.random() < .3, xml=rnd.choice([None, 'xml', 'xml-b', 'xml-b']))
+                       ml=rnd.random() < .3, xml=rnd.choice([None, 'xml', 'xml-b', 'xml-b']),
+                       cfg=rnd.choice([0, 0, 1, 2, 3, 4]))
         for i in range(nsh // 2):
             yield dict(fam='shelltex', s=rnd.getrandbits(48), accept=rnd.choice(['', 'A|I', 'a|x', 'I||', 'e.g.|K']))
 
@@ -383,6 +384,20 @@ class C20(core.Check):
         if case['ml']:
             cmd.append('--multi-language')
         cmd.append(fn)
+        cfg = os.path.join(self.tmp, '.yalafi.shell')
+        if case.get('cfg') and case['accept'].strip():
+            # the two options come from the configuration file in the current directory (one option per line,
+            # white space around the line is not part of the value)
+            pad = ['', ' ', '\t', '   '][case['cfg'] % 4]
+            with open(cfg, 'w', encoding='utf-8') as f:
+                f.write('%s--single-letters %s%s\n\n%s--equation-punctuation   %s%s\n'
+                        % (pad, case['accept'], pad, pad, case['mode'], pad))
+            k = cmd.index('--single-letters')
+            del cmd[k:k + 4]
+            cmd.remove('--no-config')
+            cnt['shell_options_from_config_file'] = 1
+        elif os.path.exists(cfg):
+            os.remove(cfg)
         pr = subprocess.run(cmd, capture_output=True, timeout=180, cwd=self.tmp, env=env.child_env())
         err = pr.stderr.decode('utf-8', 'replace')
         detail = dict(text=t, cmd=cmd[2:], stderr=err[-800:])
@@ -454,7 +469,7 @@ class C20(core.Check):
     def quotas(self, tier):
         return {'fam_single': 20000, 'fam_eq': 10000, 'single_messages': 20000, 'single_accepted_letters': 3000,
                 'eq_messages': 1500, 'shell_runs': 200, 'shell_accept_placeholders': 40, 'shelltex_runs': 100,
-                'shelltex_messages_in_later_parts': 100, 'shelltex_repeated_part': 15, 'shell_xml_messages': 300}
+                'shelltex_messages_in_later_parts': 100, 'shelltex_repeated_part': 15, 'shell_xml_messages': 300, 'shell_options_from_config_file': 60}
 
 
 CHECK = C20
